@@ -24,9 +24,15 @@ Closers == {"client", "server", "shutdown"}
 \* connectCmd notices the closed status before it asks the engine)
 \* burst: the pushes of the scenario are issued back to back and the closer follows at once, so that frames are
 \* still queued when close() starts (it flushes them, then closes the codec)
-Scenarios == [ops : OpSeqs, closer : Closers, slow : {FALSE}, burst : {FALSE}]
-             \cup {[ops |-> <<>>, closer |-> "server", slow |-> TRUE, burst |-> FALSE]}
-             \cup {[ops |-> o, closer |-> c, slow |-> FALSE, burst |-> TRUE] : o \in {[x \in 1..n |-> "send"] : n \in 1..MaxOps}, c \in {"server", "shutdown"}}
+\* delay: ConnectReply.WriteDelay > 0 and a Client.Send from the OnConnect handler: the writer collects for the delay, so
+\* the connect reply leaves in a BATCHED frame together with that push (Transport.WriteMany instead of Write). The
+\* frame that carries the connect reply arms the encoder whatever its shape; with burst the later pushes are issued
+\* back to back and share one batched frame as well, which must be an Encode output like any other later frame.
+Scenarios == [ops : OpSeqs, closer : Closers, slow : {FALSE}, burst : {FALSE}, delay : {FALSE}]
+             \cup {[ops |-> <<>>, closer |-> "server", slow |-> TRUE, burst |-> FALSE, delay |-> FALSE]}
+             \cup {[ops |-> o, closer |-> c, slow |-> FALSE, burst |-> TRUE, delay |-> FALSE] : o \in {[x \in 1..n |-> "send"] : n \in 1..MaxOps}, c \in {"server", "shutdown"}}
+             \cup [ops : OpSeqs, closer : {"server"}, slow : {FALSE}, burst : {FALSE}, delay : {TRUE}]
+             \cup {[ops |-> o, closer |-> "server", slow |-> FALSE, burst |-> TRUE, delay |-> TRUE] : o \in {[x \in 1..n |-> "send"] : n \in 2..MaxOps}}
 
 VARIABLES sc, pc, codec, wire, enc, closes, i
 vars == <<sc, pc, codec, wire, enc, closes, i>>
@@ -35,10 +41,10 @@ Init ==
   /\ sc \in Scenarios
   /\ pc = "connecting" /\ codec = "none" /\ wire = <<>> /\ enc = 0 /\ closes = 0 /\ i = 0
 
-\* transport.writeData
-Write(k) ==
-  IF codec = "active" THEN wire' = Append(wire, [k |-> k, enc |-> TRUE]) /\ enc' = enc + 1 /\ UNCHANGED codec
-  ELSE /\ wire' = Append(wire, [k |-> k, enc |-> FALSE]) /\ UNCHANGED enc
+\* transport.writeData; shape = the write path: "single" (Transport.Write) / "batched" (Transport.WriteMany)
+Write(k, shape) ==
+  IF codec = "active" THEN wire' = Append(wire, [k |-> k, enc |-> TRUE, shape |-> shape]) /\ enc' = enc + 1 /\ UNCHANGED codec
+  ELSE /\ wire' = Append(wire, [k |-> k, enc |-> FALSE, shape |-> shape]) /\ UNCHANGED enc
        /\ codec' = IF codec = "pending" THEN "active" ELSE codec
 
 CloseCodec == IF codec \in {"pending", "active"} THEN codec' = "closed" /\ closes' = closes + 1
@@ -50,13 +56,17 @@ Connect ==
        THEN \* closed by the stale timer meanwhile: connectCmd returns before the engine is asked; nothing is written
             /\ pc' = "done" /\ UNCHANGED <<codec, closes, wire, enc>>
        ELSE \* SetDictionaryCompression, then the connect reply is the next write
-            /\ wire' = Append(wire, [k |-> "connect", enc |-> FALSE]) /\ codec' = "active" /\ pc' = "up"
+            /\ wire' = Append(wire, IF sc.delay THEN [k |-> "connect+push", enc |-> FALSE, shape |-> "batched"]
+                                                ELSE [k |-> "connect", enc |-> FALSE, shape |-> "single"])
+            /\ codec' = "active" /\ pc' = "up"
             /\ UNCHANGED <<enc, closes>>
   /\ UNCHANGED <<sc, i>>
 
 Op ==
   /\ pc = "up" /\ i < Len(sc.ops)
-  /\ i' = i + 1 /\ Write(sc.ops[i + 1])
+  /\ IF sc.delay /\ sc.burst
+       THEN i' = Len(sc.ops) /\ Write("sends", "batched")      \* issued within one write delay: one frame
+       ELSE i' = i + 1 /\ Write(sc.ops[i + 1], "single")
   /\ UNCHANGED <<sc, pc, closes>>
 
 Close ==
@@ -69,7 +79,8 @@ Spec == Init /\ [][Next]_vars
 
 \* C11: the connect reply goes out uncompressed, every later frame through the encoder, the encoder is closed once
 C11_Dict ==
-  /\ wire # <<>> => (wire[1].k = "connect" /\ ~wire[1].enc)
+  /\ wire # <<>> => (wire[1].k \in {"connect", "connect+push"} /\ ~wire[1].enc)
+  /\ (wire # <<>> /\ sc.delay) => wire[1].shape = "batched"
   /\ \A x \in 2..Len(wire) : wire[x].enc
   /\ closes <= 1
   /\ pc = "done" => closes = (IF sc.slow THEN 0 ELSE 1)
